@@ -390,6 +390,9 @@ _KW_POOL = {
 }
 
 
+_NAME_ALTS: dict[str, list[str]] = {}        # operand name -> the other operands of the same type (set per rule by variants())
+
+
 def _alts(n: ast.AST) -> list[ast.AST]:
     """Single-site edits of an idiom: the shapes next to the documented one, which a check's guard
     either rejects (nothing to verify) or accepts (then its advice must hold for them too)."""
@@ -440,6 +443,13 @@ def _alts(n: ast.AST) -> list[ast.AST]:
                 m = c(n)
                 setattr(m, part, None)
                 out.append(m)
+    if isinstance(n, ast.Name) and isinstance(n.ctx, ast.Load) and n.id in _NAME_ALTS:
+        # ONE occurrence of an operand replaced by another operand of the same type: where the idiom needs the same
+        # expression twice, it is no longer there
+        for o in _NAME_ALTS[n.id]:
+            nm = ast.Name(id=o, ctx=ast.Load())
+            nm._subst = True
+            out.append(nm)
     if isinstance(n, ast.Call):
         fname = n.func.id if isinstance(n.func, ast.Name) else n.func.attr if isinstance(n.func, ast.Attribute) else None
         have = {k.arg for k in n.keywords}
@@ -482,6 +492,11 @@ def variants(rule: Rule) -> list[Rule]:
         tree = ast.parse(src)
     except SyntaxError:
         return []
+    _NAME_ALTS.clear()
+    for p_, t_ in rule.params.items():
+        others = [q_ for q_, u_ in rule.params.items() if q_ != p_ and ANNOT.get(u_) == ANNOT.get(t_)]
+        if others:
+            _NAME_ALTS[p_] = others
     cnt = _Edit()
     cnt.visit(copy.deepcopy(tree))
     out, seen = [], {norm(src)}
@@ -497,7 +512,9 @@ def variants(rule: Rule) -> list[Rule]:
             if key is None or key in seen:
                 continue
             seen.add(key)
-            out.append(Rule(rule.code, txt, rule.params, mode=rule.mode, setup=rule.setup, annot=rule.annot, cls=rule.cls, fs=rule.fs, note=f"variant of `{rule.lhs}`"))
+            subst = any(getattr(x, "_subst", False) for x in ast.walk(t2))
+            out.append(Rule(rule.code, txt, rule.params, mode=rule.mode, setup=rule.setup, annot=rule.annot, cls=rule.cls, fs=rule.fs,
+                            note=f"variant of `{rule.lhs}`" + (" [one operand occurrence substituted]" if subst else "")))
     return out
 
 
@@ -1212,6 +1229,10 @@ def run(ctx: Ctx) -> None:
                             continue
                         swapped_reported.add((r.code, r.lhs, cause))
                         inst = f"{r.lhs}[other-operand-types]"
+                    elif r.note.endswith("[one operand occurrence substituted]") and cause in ("nan", "signed-zero", "ties", "float-rounding", "result-type", "operand-object-mutated"):
+                        # the substituted shape is still (another arrangement of) the idiom: what special values do to it is listed for the idiom itself
+                        ctx.count("substituted-operand:known-cause-of-the-idiom")
+                        continue
                     elif r.note.startswith("compound:"):
                         # the idiom with a compound operand: one finding per (idiom, form of the operand)
                         _, fname, rest_ = r.note.split(":", 2)
